@@ -7,7 +7,8 @@ Real code driven (in-process, nothing of it is re-implemented):
     real RaopAudio, real FacadeAppleTV.takeover;
   * AirPlayStream.play_url (local file -> web server, takeover, try/finally).
 Collaborators are replaced by ledger-recording fakes: the per-protocol
-SetupData.connect/close (fake ProtocolMethods in pyatv.PROTOCOLS), http.create_session
+SetupData.connect/close/device_info/interfaces/features (fake ProtocolMethods in
+pyatv.PROTOCOLS; connect() takes scripted virtual time), http.create_session
 (ClientSessionManager), raop.http_connect / airplay.http_connect, the I/O of StreamClient (its initialize/close are real),
 open_source, StaticFileWebServer, AirPlayPlayer.  Every fake call is a numbered *point*;
 a plan makes point k fail (an Exception), be cancelled (real task.cancel(), delivered
@@ -22,7 +23,9 @@ import asyncio
 import itertools
 import os
 
-RULE = ("connect: every subset of the five protocols x every failing position (exhaustive) + success runs; "
+RULE = ("connect: every subset of the five protocols x every failing position x each of the four per-protocol "
+        "collaborator calls (connect, interfaces.items(), features iteration, device_info()) x scripted virtual-time "
+        "connect durations (none / failing one fastest / slowest / PRNG), loop drained before observing, + success runs; "
         "stream_file (4 variants: metadata given/not x initial volume known/not) and play_url (local file / URL): "
         "a failure and a real cancellation at every collaborator call (points enumerated by a dry run), "
         "every overlap (second call of either kind while the first is parked at every point; refused takeover "
@@ -51,8 +54,9 @@ class Injected(Exception):
 class Plan:
     """Numbers collaborator calls; makes one of them fail / be cancelled / park."""
 
-    def __init__(self, fault_at=None, kind="fail", park_at=None):
+    def __init__(self, fault_at=None, kind="fail", park_at=None, fault_name=None):
         self.fault_at = fault_at
+        self.fault_name = fault_name      # alternative to an index: the call with this name
         self.kind = kind
         self.park_at = park_at
         self.n = 0
@@ -68,11 +72,19 @@ class Plan:
         if self.park_at == i:
             self.parked.set()
             await self.resume.wait()
-        if self.fault_at == i:
+        if self.fault_at == i or (self.fault_name is not None and self.fault_name == name):
             if self.kind == "fail":
                 raise Injected(f"injected failure at point {i} ({name})")
             (self.op_task or asyncio.current_task()).cancel()
         await asyncio.sleep(0)
+
+    def sync_point(self, name):
+        """A synchronous callback into a collaborator (can fail, cannot be cancelled)."""
+        i = self.n
+        self.n += 1
+        self.names.append(name)
+        if self.fault_at == i or (self.fault_name is not None and self.fault_name == name):
+            raise Injected(f"injected failure at point {i} ({name})")
 
 
 class World:
@@ -291,28 +303,61 @@ def protocol_order():
 # connect()
 
 
-async def run_connect(subset, fail_pos, kind="fail"):
-    """pyatv.connect with the protocols in `subset` (indices into PROTOCOLS order); the
-    `fail_pos`-th of them (in set-up order) raises in its connect().  Returns the
-    observation dict."""
+CONNECT_STEPS = ["connect", "register", "features", "device_info"]
+
+
+async def run_connect(subset, fault=None, delays=None):
+    """pyatv.connect with the protocols in `subset` (indices into PROTOCOLS order).  Per
+    protocol the facade calls four things the protocol supplies: `await connect()` (which
+    takes `delays[pos]` seconds of virtual time and then establishes a connection plus a
+    background task), `interfaces.items()` (registration), iteration of `features`
+    (feature mapping) and `device_info()`.  `fault = (pos, step, kind)` makes that call of
+    the pos-th protocol (set-up order) fail / be cancelled.  After connect() has returned
+    or raised, the loop is drained (virtual time past every delay) before observing."""
     import pyatv
-    from pyatv import conf
+    from pyatv import conf, interface
+    from pyatv.const import FeatureName
     from pyatv.core import SetupData
     from pyatv.protocols import ProtocolMethods
     from pyatv.support import http
 
     world = World()
-    world.plan = Plan(fault_at=fail_pos, kind=kind)
+    delays = list(delays or [0] * len(subset))
+    if fault:
+        world.plan = Plan(kind=fault[2], fault_name=f"{CONNECT_STEPS[fault[1]]}:{subset[fault[0]]}")
     order = protocol_order()
     patches = Patches()
     loop = asyncio.get_running_loop()
+    plan = world.plan
+
+    class FakeFeatures(interface.Features):
+        def get_feature(self, feature_name):
+            return interface.FeatureInfo(interface.FeatureState.Unavailable)
 
     def methods_for(idx, proto):
+        delay = delays[subset.index(idx)] if idx in subset else 0
+
+        class Interfaces(dict):
+            def items(self):
+                plan.sync_point(f"register:{idx}")
+                return super().items()
+
+        class FeatureSet:
+            def __iter__(self):
+                plan.sync_point(f"features:{idx}")
+                return iter([FeatureName.Play])
+
+        def device_info():
+            plan.sync_point(f"device_info:{idx}")
+            return {}
+
         def setup(core):
             conn = {}
 
             async def _connect():
-                await world.plan.point(f"connect:{idx}")
+                if delay:
+                    await asyncio.sleep(delay)
+                await plan.point(f"connect:{idx}")
                 conn["c"] = world.add(f"conn{idx}", Obj())
 
                 async def background():
@@ -333,7 +378,8 @@ async def run_connect(subset, fail_pos, kind="fail"):
                     tasks.add(conn["t"].task)
                 return tasks
 
-            yield SetupData(proto, _connect, _close, lambda: {}, {}, set())
+            yield SetupData(proto, _connect, _close, device_info,
+                            Interfaces({interface.Features: FakeFeatures()}), FeatureSet())
 
         return ProtocolMethods(setup, None, None, None, None)
 
@@ -351,9 +397,9 @@ async def run_connect(subset, fail_pos, kind="fail"):
     before = set(asyncio.all_tasks())
     atv = None
     try:
-        world.plan.op_task = asyncio.ensure_future(pyatv.connect(config, loop))
+        plan.op_task = asyncio.ensure_future(pyatv.connect(config, loop))
         try:
-            atv = await world.plan.op_task
+            atv = await plan.op_task
             outcome = "ok"
         except Injected:
             outcome = "fail"
@@ -361,12 +407,17 @@ async def run_connect(subset, fail_pos, kind="fail"):
             outcome = "cancel"
         except Exception as ex:  # an observation, never a crash
             outcome = "err:" + type(ex).__name__
+        at_return = world.ledger()
+        # drain: let everything that was started run to its end (virtual time)
+        await asyncio.sleep(max(delays + [0]) + 1.0)
         for _ in range(3):
             await asyncio.sleep(0)
         obs = {
             "outcome": outcome,
             "ledger": world.ledger(),
-            "points": world.plan.n,
+            "ledger_at_return": at_return,
+            "points": plan.n,
+            "names": list(plan.names),
             "stray_tasks": len([t for t in asyncio.all_tasks() - before
                                 if not t.done() and t is not asyncio.current_task()
                                 and not any(getattr(o, "task", None) is t for _k, o in world.objs)]),
@@ -609,9 +660,12 @@ def evaluate(case):
     """Run one case on the real code.  Returns (observation, model_lines)."""
     fam = case["family"]
     if fam == "connect":
+        from harness.core import vloop
+
         fault = tuple(case["fault"]) if case["fault"] else None
-        obs = run_async(run_connect(case["subset"], fault[0] if fault else None, fault[1] if fault else "fail"))
-        return obs, [f"run connect:{csv([str(i) for i in case['subset']])} - {fault_str(fault)}"]
+        obs = vloop.run(run_connect, case["subset"], fault, case.get("delays"))
+        mfault = (4 * fault[0] + fault[1], fault[2]) if fault else None
+        return obs, [f"run connect:{csv([str(i) for i in case['subset']])} - {fault_str(mfault)}"]
     if fam == "single":
         op, vol = tuple(case["op"]), case["vol"]
         fault = tuple(case["fault"]) if case["fault"] else None
@@ -692,10 +746,12 @@ def judge(case, obs):
     bad = []
     if fam == "connect":
         if obs["outcome"] == "fail":
+            step = CONNECT_STEPS[case["fault"][1]] if case["fault"] else "-"
             if obs["ledger"]:
-                bad.append(("connect:leak", f"connect() failed but still holds {obs['ledger']}"))
+                bad.append((f"connect:leak@{step}", f"connect() failed (in {step} of protocol #{case['fault'][0]} of {case['subset']}, "
+                            f"delays {case.get('delays')}) but after draining the loop still holds {obs['ledger']}"))
             if obs["stray_tasks"]:
-                bad.append(("connect:task", f"{obs['stray_tasks']} background task(s) left behind by failed connect()"))
+                bad.append((f"connect:task@{step}", f"{obs['stray_tasks']} background task(s) left behind by failed connect()"))
         return bad
 
     def failed_call(tag, o, env, later=None, later_ledger=None):
@@ -748,6 +804,9 @@ def compare(ctx, case, obs, answers):
     def cmp_run(ans, o, where):
         m = parse_run(ans)
         impl = {"outcome": o["outcome"], "ledger": o["ledger"], "points": o["points"]}
+        if fam == "connect" and o.get("ledger_at_return") != o["ledger"]:
+            ctx.disagree(case, {"at_return": o.get("ledger_at_return"), "after_drain": o["ledger"]}, ans,
+                         where="connect: ledger changed after connect() had returned")
         ctx.validated()
         if m != impl:
             ctx.disagree(case, impl, ans, where=where)
@@ -779,14 +838,27 @@ def dry_points(op, vol):
 def gen_cases(ctx):
     cases = []
     # A. connect(): every subset x every failing position (+ success; + cancellation, compared only)
+    #    the failure strikes in any of the four per-protocol collaborator calls; the connects take
+    #    scripted (virtual) time, so overlapping connect phases show if the code allows them
     n = len(protocol_order())
+    crng = ctx.rng.fork("connect-delays")
     for mask in range(1, 2 ** n):
         subset = [i for i in range(n) if mask >> i & 1]
-        cases.append({"family": "connect", "subset": subset, "fault": None})
-        for k in range(len(subset)):
-            cases.append({"family": "connect", "subset": subset, "fault": [k, "fail"]})
-            if ctx.thorough or k == len(subset) - 1:
-                cases.append({"family": "connect", "subset": subset, "fault": [k, "cancel"]})
+        m = len(subset)
+        cases.append({"family": "connect", "subset": subset, "fault": None, "delays": [0] * m})
+        cases.append({"family": "connect", "subset": subset, "fault": None,
+                      "delays": [round(0.1 * (1 + crng.randint(0, 4)), 2) for _ in range(m)]})
+        for k in range(m):
+            patterns = [[0] * m,
+                        [0.05 if j == k else round(0.2 + 0.1 * j, 2) for j in range(m)]]      # failing one is fastest
+            if ctx.thorough:
+                patterns.append([0.5 if j == k else 0.1 for j in range(m)])                  # failing one is slowest
+            patterns.append([round(0.05 * crng.randint(0, 8), 2) for _ in range(m)])
+            for step in range(len(CONNECT_STEPS)):
+                for delays in patterns:
+                    cases.append({"family": "connect", "subset": subset, "fault": [k, step, "fail"], "delays": delays})
+            if ctx.thorough or k == m - 1:
+                cases.append({"family": "connect", "subset": subset, "fault": [k, 0, "cancel"], "delays": patterns[1]})
     # B. one streaming call, a failure and a cancellation at every collaborator call,
     #    alone and while another protocol holds a takeover
     npts = {}
@@ -829,7 +901,7 @@ def gen_cases(ctx):
 def nontrivial(case, obs):
     fam = case["family"]
     if fam == "connect":
-        return obs["outcome"] == "fail" and case["fault"][0] >= 1
+        return obs["outcome"] == "fail" and (case["fault"][0] >= 1 or case["fault"][1] >= 1)
     if fam == "single":
         return obs["outcome"] in ("fail", "cancel", "refused") and (bool(obs["env"]) or (case["fault"] or [0])[0] >= 1)
     if fam == "overlap":
@@ -858,7 +930,12 @@ def run(ctx, only=None):
             continue
         if fam in ("connect", "single"):
             ctx.note(f"{fam}:outcome:{obs['outcome']}")
-            ctx.note(f"{fam}:fault:{(case['fault'] or [None, 'none'])[1]}")
+            if fam == "connect":
+                f = case["fault"]
+                ctx.note("connect:fault:" + (f"{CONNECT_STEPS[f[1]]}:{f[2]}" if f else "none"))
+                ctx.note("connect:delays:" + ("none" if not any(case.get("delays") or []) else "scripted"))
+            else:
+                ctx.note(f"{fam}:fault:{(case['fault'] or [None, 'none'])[1]}")
         elif fam == "overlap" and obs["reached"]:
             ctx.note(f"overlap:second:{obs['outcome2']}")
         elif fam == "seq":
